@@ -91,9 +91,11 @@ pub fn run_case(line: &str) {
     let mut ts = match built { Ok(t) => t, Err(_) => { println!("R new panic:construct"); println!("."); return; } };
     let ops = parse_ops(m.get("ops").map(|s| s.as_str()).unwrap_or("E"));
     let mut poisoned = false;
+    let mut ended = false;
     for (k, op) in ops.iter().enumerate() {
-        // HtmlRewriter's guarded! is replicated here for the bare TransformStream
-        let res = if poisoned { "panic:poisoned".to_string() } else {
+        // HtmlRewriter's guarded! is replicated here for the bare TransformStream; end(self) consumes the rewriter
+        let res = if ended { "use-after-end".to_string() } else if poisoned { "panic:poisoned".to_string() } else {
+            if matches!(op, Op::End) { ended = true; }
             match catch_unwind(AssertUnwindSafe(|| match op { Op::Write(d) => ts.write(d), Op::End => ts.end() })) {
                 Ok(Ok(())) => "ok".to_string(),
                 Ok(Err(e)) => { poisoned = true; err_str(&e).to_string() }
